@@ -4,6 +4,7 @@ package main
 
 import (
 	"fmt"
+	"strings"
 	"go/types"
 	"sort"
 
@@ -174,9 +175,13 @@ func (c *Ctx) mergeStates(ins []*State) *State {
 			for _, s := range ins {
 				v, ok := s.Ghost[k]
 				if !ok {
-					v = TFalse
-					if s.GhostUnknown {
-						v = c.fresh("ghostunk", SBool)
+					if strings.HasPrefix(k, "result:") {
+						v = c.fresh("ghostres", SInt)
+					} else {
+						v = TFalse
+						if s.GhostUnknown {
+							v = c.fresh("ghostunk", SBool)
+						}
 					}
 				}
 				vals = append(vals, v)
